@@ -352,19 +352,27 @@ DoTimeout(st, e) ==
         pending == SelectSeq([i \in DOMAIN s.reqs |-> i], LAMBDA r : s.reqs[r].live)
         oldest == IF pending = <<>> THEN 0 ELSE s.reqs[pending[1]].epoch
         due == SelectSeq(pending, LAMBDA r : s.reqs[r].epoch = oldest)
-        RECURSIVE Fire(_, _)
-        Fire(stx, k) ==
-           IF k > Len(due) THEN stx
+        \* Timers of the same instant all fire before any connection event can happen.  With disconnect-on-timeout a
+        \* timed-out request asks for its connection to be dropped; the loss itself (and with it the decision whether
+        \* anything is left to reconnect for) comes after the last of these timers.
+        RECURSIVE Fire(_, _, _)
+        Fire(stx, k, drops) ==
+           IF k > Len(due) THEN [st |-> stx, drops |-> drops]
            ELSE LET r == due[k] IN
-                IF ~stx.s.reqs[r].live THEN Fire(stx, k + 1)
+                IF ~stx.s.reqs[r].live THEN Fire(stx, k + 1, drops)
                 ELSE LET b == stx.s.reqs[r].tgt
                          drop == DisconnectOnTimeout /\ b \in B /\ stx.s.conn[b]
                          st1 == Run(St(stx.s, stx.out, <<[k |-> "done", r |-> r, ok |-> FALSE, why |-> "timeout"]>>), e)
-                         st2 == IF drop THEN LET g == ConnGone(st1, b, TRUE) IN St(g.s, [g.out EXCEPT !.lost = @ \cup {b}], g.sig)
-                                ELSE st1
-                     IN Fire(st2, k + 1)
-    \* (timers of the same instant all fire before any connection event -- a reconnect, a re-send -- can happen)
-    IN Settle(Fire(St([s EXCEPT !.epoch = @ + 1], st.out, <<>>), 1))
+                     IN Fire(st1, k + 1, IF drop THEN drops \cup {b} ELSE drops)
+        fired == Fire(St([s EXCEPT !.epoch = @ + 1], st.out, <<>>), 1, {})
+        RECURSIVE Lose(_, _)
+        Lose(stx, bs) ==
+           IF bs = {} THEN stx
+           ELSE LET b == CHOOSE x \in bs : \A y \in bs : x <= y IN
+                IF stx.s.conn[b]
+                THEN LET g == ConnGone(stx, b, TRUE) IN Lose(St(g.s, [g.out EXCEPT !.lost = @ \cup {b}], g.sig), bs \ {b})
+                ELSE Lose(stx, bs \ {b})
+    IN Settle(Lose(fired.st, fired.drops))
 
 \* What a request looks like on the wire.  Requests written to one connection within the same reactor event by
 \* different operations have no order the model could know (it depends on the order in which timers of the same
@@ -555,9 +563,11 @@ C07_order_account ==
 \* every operation completes at most once
 OpsOnce == \A i \in 1..MaxOps : h.fires[i] <= 1
 \* C08: failed payloads drop the cached routing (the next request re-resolves)
+\* (when the failure is set off by the broker list of a metadata answer -- a pruned client's requests fail -- the
+\*  topic part of that same answer is written afterwards and is what the cache holds at the end of the event)
 C08_invalidate ==
     \A f \in out.fired : f[2] = "failed_payloads" =>
-        (\A tp \in TPs : s.cleader[tp] = -1) /\ s.ccoord = 0
+        ((\A tp \in TPs : s.cleader[tp] = -1) \/ ev.a = "Answer") /\ s.ccoord = 0
 \* C11: after the timers of an instant fired, no request armed before it is still pending
 C11_bound == ev.a = "Timeout" => \A r \in DOMAIN s.reqs : s.reqs[r].live => s.reqs[r].epoch = s.epoch
 \* C20: after close every operation has failed, nothing is issued or written, cache is empty
